@@ -407,6 +407,70 @@ def run_readymade(case) -> dict:
     return {"with_origin": sum(f.origin is not None for f in st.frames), "problems": problems[:3]}
 
 
+_LATE = {"n": 0}
+
+
+def run_late_glue(case) -> dict:
+    """A library that brings its own stackscope glue is imported, and the FIRST extraction afterwards is extract_outermost(x)
+    (or extract(x), for comparison): both must already see what the glue registers."""
+    import sys
+    import types as _types
+
+    import stackscope
+
+    _LATE["n"] += 1
+    name = f"verif_c16_late_{_LATE['n']}"
+
+    class Item:
+        def __init__(s, g):
+            s.g = g
+
+    def g():
+        yield
+
+    g = _types.FunctionType(g.__code__.replace(co_name="g"), g.__globals__, "g")     # a code object of this case's own
+    gen = g()
+    next(gen)
+    x = Item(gen)
+    mod = _types.ModuleType(name)
+
+    def install():
+        @stackscope.unwrap_stackitem.register(Item)
+        def _unwrap(it):
+            return it.g
+        if case.get("hide"):
+            stackscope.customize(g, hide=True)
+
+    mod._stackscope_install_glue_ = install
+    sys.modules[name] = mod
+    problems = []
+    try:
+        if case["first"] == "outermost":
+            try:
+                o = stackscope.extract_outermost(x)
+                first = (o.pyframe is gen.gi_frame, o.hide)
+            except Exception as e:  # noqa: BLE001
+                first = f"raised {type(e).__name__}: {str(e)[:80]}"
+            st = stackscope.extract(x)
+        else:
+            st = stackscope.extract(x)
+            try:
+                o = stackscope.extract_outermost(x)
+                first = (o.pyframe is gen.gi_frame, o.hide)
+            except Exception as e:  # noqa: BLE001
+                first = f"raised {type(e).__name__}: {str(e)[:80]}"
+        want = (True, bool(case.get("hide")))
+        got_st = (bool(st.frames) and st.frames[0].pyframe is gen.gi_frame, st.frames[0].hide if st.frames else None)
+        if first != want or got_st != want:
+            problems.append(f"a module with its own glue imported just before: extract_outermost(x) ({'first' if case['first'] == 'outermost' else 'second'} "
+                            f"extraction) gave {first}, extract(x).frames[0] gave {got_st}; both are (is x's frame, hide) = {want}")
+    finally:
+        # (the module stays in sys.modules: taking it out again and adding the next one would leave len(sys.modules) where the
+        # cache has it -- known finding F4, not what this case is about)
+        gen.close()
+    return {"with_origin": 1, "problems": problems}
+
+
 def run_overlap(case) -> dict:
     """extract_outermost(x) = extract(x).frames[0] also while ANOTHER thread is in the middle of an extraction with the opposite
     options, the two overlapping non-LIFO (the other one starts after this one and ends after it): forced with events."""
@@ -520,6 +584,9 @@ class C16(PropCheck):
             for nw in (1, 2):
                 for preset in (False, True):
                     out.append({"k": "readymade", "awaiter": aw, "workers": nw, "preset": preset})
+        for first in ("outermost", "extract"):
+            for hide in (False, True):
+                out.append({"k": "late_glue", "first": first, "hide": hide})
         out.append({"k": "better_origin", "pairs": [[c, f] for c in ORIGIN_KINDS if c != "none" for f in ORIGIN_KINDS]})
         for wc in (True, False):
             for first in ("outermost", "extract"):
@@ -592,6 +659,8 @@ class C16(PropCheck):
             return run_better_origin(case)
         if case["k"] == "readymade":
             return run_readymade(case)
+        if case["k"] == "late_glue":
+            return run_late_glue(case)
         raise ValueError(case["k"])
 
     def canon(self, case, real):
